@@ -817,6 +817,61 @@ func (lip6) Gen(rng *rand.Rand, tier string) []Case {
 		add(fmt.Sprintf("ser:ip6,%s,111,*65536xab", n6hex(b))) // residue or decoded jumbo option over a jumbo payload
 		add(fmt.Sprintf("ser:ip6,%s,001,*65536xab", n6hex(b)))
 	}
+	// the jumbo option VALUE swept over the bounds the decoder compares and slices with, for IPv6 Length
+	// zero / nonzero, with no payload bytes, a few, and a real jumbo-sized payload
+	for _, plen := range []int{0, 16, 65600} {
+		avail := uint32(8 + plen)
+		for _, v := range []uint32{0, 1, 7, 8, 9, 65535, 65536, 65537, avail - 1, avail, avail + 1, 0xffffffff} {
+			for _, length := range []int{0, 24} {
+				b := append(lip6FixedHeader(rng, 0, length), jumboHbh(v, 4)...)
+				if plen == 65600 {
+					b = append(b, make([]byte, plen)...)
+				} else {
+					b = append(b, n6randBytes(rng, plen)...)
+				}
+				add("dec:ip6," + n6hex(b))
+				if plen != 65600 {
+					add(fmt.Sprintf("dec2:ip6,%s,%s", n6hex(lip6ValidPacket(rng, true, 2, 9)), n6hex(b)))
+				}
+			}
+		}
+	}
+	for _, v := range []uint32{0, 8, 16, 17, 65535, 65536, 70000} { // the jumbo option behind padding / another option, 16-octet header
+		for _, length := range []int{0, 16} {
+			b := lip6FixedHeader(rng, 0, length)
+			b = append(b, 59, 1, 1, 0, 0xc2, 4, byte(v>>24), byte(v>>16), byte(v>>8), byte(v), 5, 2, 0, 0, 0, 0)
+			add("dec:ip6," + n6hex(append(b, n6randBytes(rng, 5)...)))
+			add("dec:ip6," + n6hex(b))
+		}
+	}
+	// reuse: a packet with a hop-by-hop header of 8/16/24 octets first, then plain packets (and ones whose
+	// hop-by-hop decode fails) with every small payload length around that header length, with the announced
+	// bytes present, missing, or with a trailer
+	for _, hl := range []int{0, 1, 2} {
+		first := lip6FixedHeader(rng, 0, hl*8+8+5)
+		ext := append([]byte{59, byte(hl)}, make([]byte, hl*8+6)...)
+		for i := 2; i < len(ext); i += 2 + 4 { // PadN options of 6 octets, then whatever fits
+			if len(ext)-i >= 6 {
+				ext[i], ext[i+1] = 1, 4
+			} else if len(ext)-i >= 2 {
+				ext[i], ext[i+1] = 1, byte(len(ext)-i-2)
+				break
+			}
+		}
+		first = append(append(first, ext...), 1, 2, 3, 4, 5)
+		al := hl*8 + 8
+		for _, length := range []int{0, 1, 2, al - 4, al - 1, al, al + 1, al + 8, 100} {
+			for _, have := range []int{length, length / 2, length + 3} {
+				second := append(lip6FixedHeader(rng, byte(n6pick(rng, 59, 6, 17)), length), n6randBytes(rng, have)...)
+				add(fmt.Sprintf("dec2:ip6,%s,%s", n6hex(first), n6hex(second)))
+			}
+		}
+		// second packet announces a hop-by-hop header that does not decode (too long / cut): the embedded header is touched, the field is not
+		bad := append(lip6FixedHeader(rng, 0, 30), 59, 9, 0, 0)
+		add(fmt.Sprintf("dec2:ip6,%s,%s", n6hex(first), n6hex(bad)))
+		add(fmt.Sprintf("dec2:ip6,%s,%s", n6hex(bad), n6hex(append(lip6FixedHeader(rng, 59, 3), 1, 2, 3))))
+		add(fmt.Sprintf("dec2:ip6,%s,%s", n6hex(append(lip6FixedHeader(rng, 59, 3), 1, 2, 3)), n6hex(first)))
+	}
 	{ // a real jumbogram, whole and cut
 		b := append(lip6FixedHeader(rng, 0, 0), jumboHbh(70008, 4)...)
 		full := append(append([]byte(nil), b...), make([]byte, 70000)...)
